@@ -395,11 +395,12 @@ PROPS["C20"] = {
         {"name": "C20_cells_complete", "status": "proved", "statement": "the enumerated cells are all 2 x 3 x 2 combinations"},
         {"name": "C20_rows_sound", "status": "proved", "statement": "closed world: every impl row for a protected type, of any trait (an unclassified trait fails the obligation): write-access traits only on read-write regions, read-access traits never on no-access regions, lock / no-access only from unlocked"},
         {"name": "C20_transitions_consume", "status": "proved", "statement": "every transition trait method takes self by value"},
+        {"name": "C20_transitions_reach_declared_state", "status": "proved", "statement": "every transition impl read from protected.rs returns Protected<A, pm', lm'> with (pm', lm') the state its name says: lock / unlock keep the protection parameter, the protection transitions keep the lock parameter (finite table, by computation)"},
         {"name": "C20_stream", "status": "proved", "statement": "push / pull methods exist only on DryocStream<Push> / DryocStream<Pull>"},
         {"name": "C20_example", "status": "proved", "statement": "non-vacuity"},
     ],
     "gen_obligations": ["Gen/ImplTable.v regenerated from src/protected.rs and src/dryocstream.rs (trait impl headers incl. bounds, aliases expanded, blanket impls closed)"],
-    "builds": ["nightly"],
+    "builds": ["nightly20"],
     "rule": "one program per cell of {HeapBytes, HeapByteArray<32>} x {ReadWrite, ReadOnly, NoAccess} x {Locked, Unlocked} x {read view, mutable view, array view, index, resize, clone, lock, unlock, read-only, read-write, no-access, mutable array view, DerefMut, AsRef<[u8]>, AsMut<[u8]>, AsRef<[u8; N]>, AsMut<[u8; N]>} (204), use-after-transition programs for every state (22), push/pull on push/pull streams (5): compiled with nightly rustc against the freshly built rlib (--emit=metadata); compiles <=> the property's table (search) and <=> the model's resolution of the regenerated impl table (correspondence); two control programs exercising every permitted operation along the reachable states are compiled and run. exhaustive over the table",
     "modelled": ["the Rust trait solver and borrow checker are not modelled: resolves() is an approximation (trait + mode parameters + bounds on the container) whose agreement with rustc is checked cell by cell"],
     "assumptions": ["nightly rustc 1.97 is the reference compiler"],
